@@ -21,7 +21,7 @@ pub fn meta(id: &'static str) -> Meta {
         Meta {
             id: "C04",
             level: "model_checking",
-            rule: format!("bounded exhaustive exploration of the alignment writer's operation sequences: {common} Oracle: the three-way case distinction of the statement implemented literally (matched centre -> strand-corrected middle base; within (k-1)/2 of a matched centre on the same contig -> upper-case reference base; else '-'), then the two masks. States = distinct (reference layout, matched-centre pattern) inputs driven through the writer; transitions = write_split_kmer calls implied (matched centres); every run is the real implementation, so each explored sequence is validated against it."),
+            rule: format!("bounded exhaustive exploration of the alignment writer's operation sequences: {common} Oracle: the three-way case distinction of the statement implemented literally (matched centre -> strand-corrected middle base; within (k-1)/2 of a matched centre on the same contig -> upper-case reference base; else '-'), then the two masks. States = distinct (reference layout, matched-centre pattern) inputs driven through the writer; transitions = write_split_kmer calls implied (matched centres); every run is the real implementation, so each explored sequence is validated against it. Through the CLI additionally every flag combination at k = 9, 31, 33, 63, a reference of two 40 000-base contigs (more than 2^16 columns) and one of 65 537 contigs."),
             assumptions: vec!["a map in which no k-mer matches may be refused or print all gaps; a reference without any k-mer is refused".into(), "a reference letter outside A/C/G/T/N must be shown as itself (upper-case) where the reference base is shown; how it is read inside a k-mer is not defined by the tool, so any consistent reading (A, C, G, T or not-a-base, the same for the whole run) is accepted".into()],
             exhaustive_when_uncapped: true,
         }
@@ -29,7 +29,7 @@ pub fn meta(id: &'static str) -> Meta {
         Meta {
             id: "C05",
             level: "exploration",
-            rule: format!("for every case of the C04 families the real `write_vcf` output is related to the real `write_aln` output of the same inputs and the upper-cased reference: a record at (contig, 1-based position) exists exactly where some sample's aligned character differs from the upper-case reference base; REF is that base (N if not A/C/G/T); every genotype decodes through REF/ALT to the aligned character with '.' for '-' and N for ambiguity codes; contig names/order and sample order as given. Families: {common} Plus a CLI family (`ska map -f vcf|aln`, several contigs, ##contig header)."),
+            rule: format!("for every case of the C04 families the real `write_vcf` output is related to the real `write_aln` output of the same inputs and the upper-cased reference: a record at (contig, 1-based position) exists exactly where some sample's aligned character differs from the upper-case reference base; REF is that base (N if not A/C/G/T); every genotype decodes through REF/ALT to the aligned character with '.' for '-' and N for ambiguity codes; contig names/order and sample order as given. Families: {common} Plus a CLI family (`ska map -f vcf|aln`, several contigs, ##contig header; a reference of two 40 000-base contigs and one of 65 537 contigs)."),
             assumptions: vec!["the relation is evaluated between two real outputs, so it does not depend on the C04 model".into()],
             exhaustive_when_uncapped: true,
         }
@@ -649,6 +649,68 @@ pub fn run(ctx: &Ctx, rep: &mut Report, id: &str) {
                     if !ok {
                         d.rep.violate(format!("cli map vcf k={k} am={am} rm={rm}"), "ska map -f vcf does not carry the information of ska map -f aln".into(), json!({"cli": true, "vcf": true, "k": k, "am": am, "rm": rm}));
                     }
+                }
+            }
+        }
+        // large references through the CLI at k=31: (a) two contigs of 40 000 bases (more than 2^16 columns; one sample
+        // identical to the reference, one with a single SNP far into contig 2), (b) 65 537 contigs of 33 bases (more than
+        // 2^16 contigs) mapped against themselves. Letters come from a fixed generator; a draw in which some split
+        // k-mer repeats is skipped (the model would then expect ambiguity codes: not the point here).
+        for which in ["two contigs of 40000 bases", "65537 contigs of 33 bases"] {
+            idx += 1;
+            if !ctx.mine(idx) {
+                continue;
+            }
+            let k = 31usize;
+            let mut x = crate::enumerate::splitmix(ctx.seed.wrapping_add(40_404));
+            let mut draw = |n: usize| -> Vec<u8> {
+                (0..n)
+                    .map(|_| {
+                        x = crate::enumerate::splitmix(x);
+                        b"ACGT"[(x >> 33) as usize & 3]
+                    })
+                    .collect()
+            };
+            let reference: Vec<Vec<u8>> = if which.starts_with("two") { vec![draw(40_000), draw(40_000)] } else { (0..65_537).map(|_| draw(33)).collect() };
+            let mut snp = reference.clone();
+            let (sc, sp) = if which.starts_with("two") { (1usize, 30_000usize) } else { (65_536usize, 16usize) };
+            snp[sc][sp] = comp(snp[sc][sp]);
+            let names = vec!["same".to_string(), "snp".to_string()];
+            let t = Table::from_samples(k, true, &names, &[reference.clone(), snp.clone()]);
+            if t.has_ambig() {
+                d.rep.corner("large_reference_draw_with_repeated_split_kmer_(skipped)");
+                continue;
+            }
+            let dir = scratch::path("c04big");
+            let _ = std::fs::remove_dir_all(&dir);
+            let _ = std::fs::create_dir_all(&dir);
+            let named: Vec<(String, Vec<u8>)> = reference.iter().enumerate().map(|(i, s)| (format!("c{i}"), s.clone())).collect();
+            std::fs::write(format!("{dir}/ref.fa"), scratch::fasta_named(&named)).unwrap();
+            std::fs::write(format!("{dir}/same.fa"), scratch::fasta(&reference)).unwrap();
+            std::fs::write(format!("{dir}/snp.fa"), scratch::fasta(&snp)).unwrap();
+            let b = cli::run(&["build", "-k", "31", "-o", "x", "same.fa", "snp.fa"], &dir, None);
+            let rf = RefSeq { path: format!("{dir}/ref.fa"), names: (0..reference.len()).map(|i| format!("c{i}")).collect(), seqs: reference.clone() };
+            let (want, _) = model_map(&reference, &dicts_of(&t), k, true, false, false);
+            let want_cat: Vec<Vec<u8>> = want.iter().map(|a| a.concat()).collect();
+            d.rep.evaluations += 1;
+            d.rep.nontrivial += 1;
+            d.rep.corner("cli_map_large_reference");
+            let o = cli::run(&["map", "ref.fa", "x.skf"], &dir, None);
+            let (nm, seqs) = real::parse_fasta(&o.stdout);
+            if !want_vcf {
+                if b.code != 0 || o.code != 0 || nm != names || seqs != want_cat {
+                    let first = seqs.iter().zip(&want_cat).enumerate().find_map(|(i, (a, w))| a.iter().zip(w.iter()).position(|(p, q)| p != q).map(|p| (i, p)));
+                    d.rep.violate(format!("cli map {which}"), format!("ska map on {which} (exit {} / {}): differs from the model, first difference (sample, column) {:?}, lengths {:?} vs {:?}", b.code, o.code, first, seqs.iter().map(|s| s.len()).collect::<Vec<_>>(), want_cat.iter().map(|s| s.len()).collect::<Vec<_>>()), json!({"cli": true, "large": which}));
+                }
+            } else if o.code == 0 {
+                let v = cli::run(&["map", "ref.fa", "x.skf", "-f", "vcf"], &dir, None);
+                let alns: Option<Vec<Vec<Vec<u8>>>> = seqs.iter().map(|s| split_contigs(s, &reference)).collect();
+                let ok = match (vcf_canon(&v.stdout, &rf.names), alns) {
+                    (Ok(got), Some(alns)) => v.code == 0 && got == model_vcf_canon(&rf, &nm, &alns),
+                    _ => false,
+                };
+                if !ok {
+                    d.rep.violate(format!("cli map vcf {which}"), format!("ska map -f vcf on {which} (exit {}) does not carry the information of ska map -f aln", v.code), json!({"cli": true, "vcf": true, "large": which}));
                 }
             }
         }
